@@ -75,6 +75,7 @@ FieldValues(fields) ==
 
 Values(T) ==
   CASE T.k = "prim" -> PrimValues(T.name)
+    [] T.k = "hw" -> << <<>> >>
     [] T.k \in {"unit", "rangefull", "phantom"} -> << <<>> >>
     [] T.k \in {"string", "boxstr"} -> StrValues
     [] T.k \in SeqKinds -> LET ev == Values(T.elem) IN SeqValues(ev)
